@@ -13,8 +13,15 @@ use std::hash::Hash;
 use std::hash::Hasher;
 
 use hashbrown::raw::RawTable;
+#[cfg(not(all(feature = "isographlabs_isograph_verif", not(test))))]
 use parking_lot::RwLock;
+#[cfg(not(all(feature = "isographlabs_isograph_verif", not(test))))]
 use parking_lot::RwLockWriteGuard;
+
+#[cfg(all(feature = "isographlabs_isograph_verif", not(test)))]
+use crate::verif_sync::RwLock;
+#[cfg(all(feature = "isographlabs_isograph_verif", not(test)))]
+use crate::verif_sync::RwLockWriteGuard;
 
 const SHARD_SHIFT: usize = 6;
 const SHARDS: usize = 1 << SHARD_SHIFT;
